@@ -190,10 +190,47 @@ func oracleCandidates(c *caseCtx, q core.Query, r core.Result) {
 			}
 		}
 	}
+	// the same contract at a lowered limit (verif hook): populations "above the limit" for every
+	// producer of candidates, hooks included, without needing > 100 of each
+	nHook := 0
+	for _, cand := range cands.List {
+		if isHookCandidate(cand) {
+			nHook++
+		}
+	}
+	// (with hook candidates in the list the limit is put right behind them: hooks and the
+	// constraint's own candidates share one budget)
+	if q.MaxCandidates == 0 && len(cands.List) >= 3 && len(cands.List) < hardLimit && (q.Pos.Byte%3 == 0 || (nHook > 0 && nHook+1 < len(cands.List))) && core.HooksEnabled {
+		k := 2 + (q.Pos.Byte/3)%3 // (below 2 the two extension attributes alone exceed it; irrelevant for the real limit)
+		if nHook > 0 && nHook+1 < len(cands.List) {
+			k = nHook + 1
+		}
+		if k >= len(cands.List) {
+			k = len(cands.List) - 1
+		}
+		q3 := q
+		q3.MaxCandidates = uint(k)
+		r3 := c.Env.Run(q3)
+		c.Rep.Count("lowered_limit_reruns", 1)
+		if low, ok := r3.Value.(lang.Candidates); ok && r3.Panic == nil {
+			ks := []string{}
+			for kk := range kinds {
+				ks = append(ks, kk)
+			}
+			sort.Strings(ks)
+			if len(low.List) > k {
+				c.Rep.Violation(c.witness("LIMIT exceeded-at-lowered-limit kinds="+strings.Join(ks, ","), fmt.Sprintf("with the limit set to %d the list has %d entries (%d without that limit)", k, len(low.List), len(cands.List)), q, nil))
+			}
+			if low.IsComplete {
+				c.Rep.Violation(c.witness("COMPLETE-FLAG marked-complete-but-truncated at-lowered-limit kinds="+strings.Join(ks, ","), fmt.Sprintf("with the limit set to %d the list of %d (of %d) candidates is marked complete", k, len(low.List), len(cands.List)), q, nil))
+			}
+			c.Rep.Distinct("population_classes", "above(lowered)")
+		}
+	}
 	// hook candidates => incomplete
 	if cands.IsComplete {
 		for _, cand := range cands.List {
-			if cand.Detail == "from hook" || cand.Detail == "instance type" || cand.Detail == "local module" || cand.Detail == "registry module" {
+			if isHookCandidate(cand) {
 				c.Rep.Violation(c.witness("COMPLETE-FLAG marked-complete-with-hook-candidates", fmt.Sprintf("list contains hook candidate %q but is marked complete", cand.Label), q, nil))
 				break
 			}
@@ -339,8 +376,8 @@ func oracleTokens(c *caseCtx, q core.Query, r core.Result) {
 // schema gives it and has the whole attribute / the type keyword / the label
 // as range; inside a value the range stays within the attribute's expression.
 func oracleHoverElements(c *caseCtx, q core.Query, r core.Result) {
-	if q.Kind != core.QHover || r.Panic != nil {
-		return
+	if q.Kind != core.QHover || r.Panic != nil || r.PathErr != nil || c.WS.FailPaths[q.Path] {
+		return // (a path that cannot be read answers with its error)
 	}
 	pc := c.Env.PathCtx[q.Path]
 	if pc == nil || pc.Schema == nil || pc.Files[q.File] == nil {
@@ -603,4 +640,9 @@ func oracleTokenStructure(c *caseCtx, q core.Query, r core.Result) {
 		}
 	}
 	c.Rep.Count("structure_tokens_expected", int64(len(m.want)))
+}
+
+// isHookCandidate recognises the candidates produced by the harness' own completion hooks.
+func isHookCandidate(cand lang.Candidate) bool {
+	return cand.Detail == "from hook" || cand.Detail == "instance type" || cand.Detail == "local module" || cand.Detail == "registry module"
 }
